@@ -149,7 +149,7 @@ theorem StartsAt.skip {c : Nat} {toks : List Tok} (h : StartsAt c toks) : skipEO
 
 mutual
 theorem pStmt_lays : ∀ (t : T) (c : Nat) (toks rest : List Tok), LStmt c t toks → Follow c rest →
-    ∃ N, ∀ f, N ≤ f → ∃ r, pStmt f c (toks ++ rest) = some (t, r) ∧ skipEOL r = rest
+    ∃ N, ∀ f, N ≤ f → ∃ r, pStmt f c (toks ++ rest) = .ok t r ∧ skipEOL r = rest
   | .line ws, c, toks, rest, h, hf => by
     simp only [LStmt] at h
     obtain ⟨ws', es, hne, hw, _, hes, hesne, e⟩ := h
@@ -194,7 +194,7 @@ theorem pStmt_lays : ∀ (t : T) (c : Nat) (toks rest : List Tok), LStmt c t tok
     rw [e1]
     simp only [pStmt, htw, hsk, pBlock, hcol, hnot, if_false, hN f (by omega)]
 theorem pList_lays : ∀ (ts : List T) (c : Nat) (toks rest : List Tok), LBlock c ts toks → Ends c rest →
-    ∃ N, ∀ f, N ≤ f → pList f c (toks ++ rest) = some (ts, rest)
+    ∃ N, ∀ f, N ≤ f → pList f c (toks ++ rest) = .ok ts rest
   | [], _, _, _, h, _ => by simp [LBlock] at h
   | [t], c, toks, rest, h, he => by
     simp only [LBlock] at h
